@@ -143,6 +143,8 @@ void AbstractParameterAliasable::aliasParameters(map<string, string>& unparsedPa
       {
         if (!pl.hasParameter(it->second))
           throw ParameterNotFoundException("Unknown aliasing parameter", it->first + "->" + it->second);
+        // the target is itself an alias that is not set yet: try again in the next round
+        ++it;
         continue;
       }
       unique_ptr<Parameter> p2(pp->clone());
